@@ -16,6 +16,7 @@ LEVEL = "translation_validation"
 MODELS: Dict[str, pathlib.Path] = {
     "basic": VERIF / "models" / "c08_basic.py",
     "hierarchy": VERIF / "models" / "c08_hierarchy.py",
+    "bytes": VERIF / "models" / "c11_bytes.py",
     # models which the front end may legitimately REJECT (then there is nothing to compare); if it accepts them, the
     # generated verification must still agree with Python
     "may-reject:filter": VERIF / "models" / "c08_filter.py",
